@@ -88,6 +88,7 @@ fn gen_tree_pipeline(rng: &mut Rng, allow_fragment: bool, allow_attach: bool) ->
         allow_shadow: rng.chance(9, 10),
         driver: false,
         with_form,
+        driver_mode: 0,
     }
 }
 
@@ -325,7 +326,7 @@ impl HtmlWorld {
                 SchedKnobs { allow_inject: true, allow_collect: false, allow_truncate: false, allow_end_at_pause: false, allow_script_dom: false }
             },
             HProp::C04 => SchedKnobs { allow_inject: true, allow_collect: true, allow_truncate: true, allow_end_at_pause: true, allow_script_dom: true },
-            HProp::C05 => SchedKnobs { allow_inject: true, allow_collect: true, allow_truncate: true, allow_end_at_pause: false, allow_script_dom: false },
+            HProp::C05 => SchedKnobs { allow_inject: true, allow_collect: true, allow_truncate: true, allow_end_at_pause: false, allow_script_dom: true },
             HProp::C06 => SchedKnobs { allow_inject: true, allow_collect: false, allow_truncate: true, allow_end_at_pause: false, allow_script_dom: false },
             HProp::C08 => SchedKnobs { allow_inject: false, allow_collect: false, allow_truncate: false, allow_end_at_pause: false, allow_script_dom: false },
             HProp::C18 => SchedKnobs { allow_inject: true, allow_collect: true, allow_truncate: true, allow_end_at_pause: false, allow_script_dom: true },
@@ -365,9 +366,10 @@ impl HtmlWorld {
                 (input, p)
             },
             HProp::C18 if rng.chance(1, 3) => (gen_gc_input(rng), gen_tree_pipeline(rng, true, true)),
+            HProp::C05 if rng.chance(1, 6) => (gen_gc_input(rng), gen_tree_pipeline(rng, true, true)),
             HProp::C05 | HProp::C18 => {
                 let mut input = gen_input(rng, thorough);
-                if self.prop == HProp::C18 && rng.chance(2, 3) {
+                if (self.prop == HProp::C18 && rng.chance(2, 3)) || (self.prop == HProp::C05 && rng.chance(1, 3)) {
                     // more script pauses: that is where scripts edit the DOM and collections bite
                     for _ in 0..rng.range(1, 3) {
                         let n = input.chars().count();
@@ -410,6 +412,25 @@ impl HtmlWorld {
                 } else {
                     gen_input(rng, thorough)
                 };
+                if f == "discard_bom" && rng.chance(1, 8) {
+                    // encoding declarations are suspension points of their own
+                    input = gen_meta_input(rng, thorough) + &input;
+                }
+                if f == "discard_bom" && rng.chance(1, 2) {
+                    // a U+FEFF anywhere but first is never dropped: right after tags (where feed()
+                    // may have returned in between) and elsewhere
+                    for _ in 0..rng.range(1, 3) {
+                        let after_gt: Vec<usize> = input.char_indices().filter(|(_, c)| *c == '>').map(|(b, _)| b + 1).collect();
+                        let at = if !after_gt.is_empty() && rng.chance(3, 4) {
+                            *rng.pick(&after_gt)
+                        } else {
+                            let n = input.chars().count();
+                            let k = rng.below(n + 1);
+                            input.char_indices().nth(k).map(|(b, _)| b).unwrap_or(input.len())
+                        };
+                        input.insert(at, '\u{feff}');
+                    }
+                }
                 if f == "discard_bom" && rng.chance(2, 3) && !input.starts_with('\u{feff}') {
                     input.insert(0, '\u{feff}');
                 }
@@ -441,9 +462,10 @@ impl HtmlWorld {
         };
         let mut pipeline = pipeline;
         if matches!(self.prop, HProp::C03 | HProp::C04 | HProp::C05 | HProp::C06) && rng.chance(1, 8) {
-            if let Pipeline::Tree { driver, with_form, .. } = &mut pipeline {
+            if let Pipeline::Tree { driver, with_form, driver_mode, .. } = &mut pipeline {
                 *driver = true;
                 *with_form = false;
+                *driver_mode = *rng.pick(&[0u8, 0, 1, 2]);
             }
         }
         let _ = &mut opts;
@@ -492,12 +514,12 @@ fn first_line_diff(a: &str, b: &str) -> String {
 }
 
 fn reference_case(case: &HtmlCase, logical: &str) -> HtmlCase {
-    HtmlCase {
-        input: logical.to_string(),
-        opts: case.opts.clone(),
-        pipeline: case.pipeline.clone(),
-        schedule: Schedule::one_piece(),
+    let mut pipeline = case.pipeline.clone();
+    if let Pipeline::Tree { driver_mode, .. } = &mut pipeline {
+        // the reference is always the plain use of the driver: process(), then finish()
+        *driver_mode = 0;
     }
+    HtmlCase { input: logical.to_string(), opts: case.opts.clone(), pipeline, schedule: Schedule::one_piece() }
 }
 
 fn tree_nf(sink: &Option<ModelSink>) -> Option<String> {
@@ -514,6 +536,7 @@ fn add_run_stats(stats: &mut Stats, obs: &RunObs) {
     stats.add("F3_injections_at_script_pause", s.injections);
     stats.add("F4_truncated_streams", s.truncated);
     stats.add("F4_end_at_pause", s.end_at_pause);
+    stats.add("driver_parser_fields_driven_by_hand_then_finish", s.hand_driven_parser);
     stats.add("F5_collections", s.collections);
     stats.add("F5_nodes_collected", s.collected_nodes);
     stats.add("pauses_script", s.pauses_script);
@@ -1071,6 +1094,7 @@ fn strip_doctype_line(nf: &str) -> String {
 impl HtmlWorld {
     fn run_checked(&self, case: &HtmlCase, flip: &Option<String>, stats: &mut Stats, digest: &mut u64, toggles: &[String]) -> Result<(), Violation> {
         let record = self.prop == HProp::C19;
+        crate::html_stream::PROBE_TOKENS.with(|p| p.set(self.prop == HProp::C09));
         if self.prop == HProp::C08 {
             return self.check_c08(case, flip, stats, digest);
         }
@@ -1450,7 +1474,7 @@ fn case_candidates(c: &HtmlCase) -> Vec<HtmlCase> {
                 out.push(n);
             }
         },
-        Pipeline::Tree { context, ctx_scripting, attach_ok, allow_shadow, driver, with_form } => {
+        Pipeline::Tree { context, ctx_scripting, attach_ok, allow_shadow, driver, with_form, driver_mode } => {
             let mk = |context: Option<(String, String)>, attach_ok: bool, allow_shadow: bool, with_form: bool| Pipeline::Tree {
                 context,
                 ctx_scripting: *ctx_scripting,
@@ -1458,7 +1482,15 @@ fn case_candidates(c: &HtmlCase) -> Vec<HtmlCase> {
                 allow_shadow,
                 driver: *driver,
                 with_form,
+                driver_mode: *driver_mode,
             };
+            if *driver_mode != 0 {
+                let mut n = c.clone();
+                if let Pipeline::Tree { driver_mode, .. } = &mut n.pipeline {
+                    *driver_mode = 0;
+                }
+                out.push(n);
+            }
             if context.is_some() {
                 let mut n = c.clone();
                 n.pipeline = mk(None, *attach_ok, *allow_shadow, false);
